@@ -76,7 +76,8 @@ def main(tier, replay=None, only=None):
     per = []
     execs = points = 0
     for sc, sbound in (scenarios(tier) if only is None else scenarios(tier)[only:only + 1]):
-        sb = bound if (sbound is None or tier == "thorough") else sbound
+        # scenarios with ~1000 choice points carry their own bound: default schedules in quick, one preemption in thorough
+        sb = bound if sbound is None else (sbound if tier == "quick" else sbound + 1)
         if ctx.expired():
             break
         sc.setup()
